@@ -102,7 +102,7 @@ def modelOut (evs : List Framing.Event) : ModelOut :=
       | .eof => go rest true wire (if endm == "" then "w" else endm) calls
       | .close => go rest seenEof wire (if endm == "" then "c" else endm) calls
       | .opaque => ⟨wire.reverse, "o", calls.reverse, true⟩
-      | .fuel => ⟨wire.reverse, "f", calls.reverse, false⟩
+      | .fuel _ => ⟨wire.reverse, "f", calls.reverse, false⟩
       | .exec c => go rest seenEof wire endm (if c.fn == .idle then calls else showCall c :: calls)
       | e =>
         match showModelEv e with
